@@ -164,14 +164,18 @@ template <typename T>
 SymmetricTridiagonalSolver<T>::SymmetricTridiagonalSolver(const SymmetricTridiagonalSolver& other)
     : matrix_dimension_(other.matrix_dimension_)
     , main_diagonal_values_(std::make_unique<T[]>(matrix_dimension_))
-    , sub_diagonal_values_(std::make_unique<T[]>(matrix_dimension_ - 1))
+    , sub_diagonal_values_(std::make_unique<T[]>(std::max(matrix_dimension_ - 1, 0)))
     , cyclic_corner_element_(other.cyclic_corner_element_)
     , is_cyclic_(other.is_cyclic_)
+    , factorized_(other.factorized_)
+    , gamma_(other.gamma_)
 {
-    std::copy(other.main_diagonal_values_.get(), other.main_diagonal_values_.get() + matrix_dimension_,
-              main_diagonal_values_.get());
-    std::copy(other.sub_diagonal_values_.get(), other.sub_diagonal_values_.get() + matrix_dimension_ - 1,
-              sub_diagonal_values_.get());
+    if (matrix_dimension_ > 0) {
+        std::copy(other.main_diagonal_values_.get(), other.main_diagonal_values_.get() + matrix_dimension_,
+                  main_diagonal_values_.get());
+        std::copy(other.sub_diagonal_values_.get(), other.sub_diagonal_values_.get() + matrix_dimension_ - 1,
+                  sub_diagonal_values_.get());
+    }
 }
 
 // copy assignment
@@ -186,14 +190,18 @@ SymmetricTridiagonalSolver<T>& SymmetricTridiagonalSolver<T>::operator=(const Sy
     if (matrix_dimension_ != other.matrix_dimension_) {
         matrix_dimension_     = other.matrix_dimension_;
         main_diagonal_values_ = std::make_unique<T[]>(matrix_dimension_);
-        sub_diagonal_values_  = std::make_unique<T[]>(matrix_dimension_ - 1);
+        sub_diagonal_values_  = std::make_unique<T[]>(std::max(matrix_dimension_ - 1, 0));
     }
     cyclic_corner_element_ = other.cyclic_corner_element_;
     is_cyclic_             = other.is_cyclic_;
-    std::copy(other.main_diagonal_values_.get(), other.main_diagonal_values_.get() + matrix_dimension_,
-              main_diagonal_values_.get());
-    std::copy(other.sub_diagonal_values_.get(), other.sub_diagonal_values_.get() + matrix_dimension_ - 1,
-              sub_diagonal_values_.get());
+    factorized_            = other.factorized_;
+    gamma_                 = other.gamma_;
+    if (matrix_dimension_ > 0) {
+        std::copy(other.main_diagonal_values_.get(), other.main_diagonal_values_.get() + matrix_dimension_,
+                  main_diagonal_values_.get());
+        std::copy(other.sub_diagonal_values_.get(), other.sub_diagonal_values_.get() + matrix_dimension_ - 1,
+                  sub_diagonal_values_.get());
+    }
     return *this;
 }
 
@@ -205,10 +213,14 @@ SymmetricTridiagonalSolver<T>::SymmetricTridiagonalSolver(SymmetricTridiagonalSo
     , sub_diagonal_values_(std::move(other.sub_diagonal_values_))
     , cyclic_corner_element_(other.cyclic_corner_element_)
     , is_cyclic_(other.is_cyclic_)
+    , factorized_(other.factorized_)
+    , gamma_(other.gamma_)
 {
     other.matrix_dimension_      = 0;
     other.cyclic_corner_element_ = 0.0;
     other.is_cyclic_             = true;
+    other.factorized_            = false;
+    other.gamma_                 = 0.0;
 }
 
 // move assignment
@@ -220,9 +232,13 @@ SymmetricTridiagonalSolver<T>& SymmetricTridiagonalSolver<T>::operator=(Symmetri
     sub_diagonal_values_         = std::move(other.sub_diagonal_values_);
     cyclic_corner_element_       = other.cyclic_corner_element_;
     is_cyclic_                   = other.is_cyclic_;
+    factorized_                  = other.factorized_;
+    gamma_                       = other.gamma_;
     other.matrix_dimension_      = 0;
     other.cyclic_corner_element_ = 0.0;
     other.is_cyclic_             = true;
+    other.factorized_            = false;
+    other.gamma_                 = 0.0;
     return *this;
 }
 
